@@ -31,14 +31,14 @@ func (e *e2) control(op *Op, ctx *OpCtx) (res Res) {
 		}
 	case "StopFeed":
 		e.mu.Lock()
-		f := e.feeds[op.Feed.ID]
+		f := e.feeds[op.Feed.LogKey()]
 		e.mu.Unlock()
 		if f != nil {
 			f.Stop()
 		}
 	case "WaitFeed":
 		e.mu.Lock()
-		f := e.feeds[op.Feed.ID]
+		f := e.feeds[op.Feed.LogKey()]
 		e.mu.Unlock()
 		if f != nil {
 			<-f.Done
@@ -52,6 +52,7 @@ func (e *e2) control(op *Op, ctx *OpCtx) (res Res) {
 		err := e.w.Handles[h].CloseAndDelete(context.Background())
 		res.Err = classify(err)
 		e.mu.Lock()
+		e.deleted = true
 		for i := range e.w.Handles {
 			e.closedHandles[i] = true
 		}
@@ -59,6 +60,14 @@ func (e *e2) control(op *Op, ctx *OpCtx) (res Res) {
 	case "DropColl":
 		err := e.w.Handles[h].DropDataStore(e.w.CollName[op.Coll])
 		res.Err = classify(err)
+		if err == nil {
+			e.mu.Lock()
+			if e.dropped == nil {
+				e.dropped = map[int]bool{}
+			}
+			e.dropped[op.Coll] = true
+			e.mu.Unlock()
+		}
 	case "Sleep":
 		time.Sleep(time.Duration(op.Dur) * time.Second)
 	case "Yield":
